@@ -33,6 +33,8 @@ fn base_classes(c: &HistCase, r: &HistResult) -> Vec<String> {
 
 const ASSUME_L1: &[&str] = &[
     "observed at wire level in-process (decode -> handler -> encode), single client, harness-owned Timer",
+    "a twelfth as many further histories from the same generator run command by command over a loopback connection to an in-process MemcacheTcpServer (the server's own connection handling in front of codec and handler, same injected Timer), judged by the same model (class over_tcp)",
+    "C05 and C08 add a quarter as many histories under RandomPolicy with a memory limit of 400..1500 bytes (class under_memory_pressure): there the model accepts a miss on any item at any time and still judges everything that is returned; eviction victims are random, so such a replay file is re-executed up to 60 times",
     "the reference model (spec.rs) is the oracle; its open points are listed in DESIGN.md 4.3",
     "TTLs are generated in 0..=30 days; key pool of 2..5 keys per history; histories of at most the stated length",
 ];
@@ -55,6 +57,7 @@ pub fn c01() -> HistProp {
         classes: base_classes,
         min_nontrivial_pct: 10.0,
         assumptions: ASSUME_L1,
+        pressure: false,
     }
 }
 
@@ -78,6 +81,7 @@ pub fn c02() -> HistProp {
         classes: base_classes,
         min_nontrivial_pct: 10.0,
         assumptions: ASSUME_L1,
+        pressure: false,
     }
 }
 
@@ -104,6 +108,7 @@ pub fn c05() -> HistProp {
         classes: base_classes,
         min_nontrivial_pct: 10.0,
         assumptions: ASSUME_L1,
+        pressure: true,
     }
 }
 
@@ -133,6 +138,7 @@ pub fn c06() -> HistProp {
         classes: base_classes,
         min_nontrivial_pct: 10.0,
         assumptions: ASSUME_L1,
+        pressure: false,
     }
 }
 
@@ -157,6 +163,7 @@ pub fn c07() -> HistProp {
         classes: base_classes,
         min_nontrivial_pct: 10.0,
         assumptions: ASSUME_L1,
+        pressure: false,
     }
 }
 
@@ -183,6 +190,7 @@ pub fn c08() -> HistProp {
         classes: base_classes,
         min_nontrivial_pct: 10.0,
         assumptions: ASSUME_L1,
+        pressure: true,
     }
 }
 
@@ -210,5 +218,35 @@ pub fn c11() -> HistProp {
         },
         min_nontrivial_pct: 10.0,
         assumptions: ASSUME_L1,
+        pressure: false,
+    }
+}
+
+/// C13's histories: the size limit inside ordinary traffic (every command kind, every CAS selector, keys of
+/// every length), judged for the C13-owned clauses only (a request within the limit answered 'too large',
+/// an oversized one not refused or not without effect)
+pub fn c13_aux() -> HistProp {
+    let mut cfg = GenCfg::default();
+    cfg.max_ops = 40;
+    cfg.big_val_pct = 35;
+    cfg.cas_nonzero_pct = 40;
+    cfg.w_set = 25;
+    cfg.w_add = 10;
+    cfg.w_replace = 8;
+    cfg.w_concat = 12;
+    cfg.w_counter = 6;
+    cfg.w_delete = 10;
+    cfg.probe_w = [3, 1, 1];
+    HistProp {
+        prop: "C13",
+        cfg,
+        cases_quick: 1500,
+        cases_thorough: 20_000,
+        rule: "",
+        nontrivial: |_c, r| r.f("oversized_request") > 0 || r.f("val_limit") > 0,
+        classes: base_classes,
+        min_nontrivial_pct: 0.0,
+        assumptions: ASSUME_L1,
+        pressure: false,
     }
 }
